@@ -12,14 +12,14 @@ Layers (mirroring the Go functions)
 * `scanNumber` — model of the dependency `parse.Number` (longest number lexeme; `1.` yields `1`).
 * `scan` — the loop of `ShortenPathData`: separators, command letters (a repeated identical letter
   other than `M`/`m` is skipped, i.e. continues the instruction), single-character arc flags at
-  argument positions 3, 4 (mod 7) of `A`/`a`, number lexemes, any other byte skipped; a bad flag
-  sets `cmd = 0`.
+  argument positions 3, 4 (mod 7) of `A`/`a`, number lexemes, any other byte skipped; a bad flag or `1.e5`
+  stops the scan: the rest of the input from the current instruction's letter is kept verbatim.
 * `PState`, `emitCmd`, `copyNumber`, `copyFlag`, `emitGroup` — the separator-elision printer
   (`prevDigit`, `prevDigitIsInt`, `prevFlag`; the `.0` trick; the trailing `00` → `e2` rewrite of
   plain integers; a letter is printed unless equal to the previous one or `L` after `M` / `l` after `m`).
 * `groupStep` — one iteration of the loop of `copyInstruction`: new cursor, C→S, Q→T, degenerate
   curve → line, L→H/V, zero-length L removal, control-point state (`NaN` = `none`; **not** reset by
-  closepath, as in the code), current and alternative (absolute ↔ relative) candidates, shortest
+  closepath), current and alternative (absolute ↔ relative) candidates, shortest
   choice (ties → current).
 * `copyInstr`, `run`, `shorten` — `copyInstruction` per instruction (arity checks: an instruction whose
   coordinate count is not a multiple of the arity is dropped), the 100 000-byte cut-off, the `cmd == 0`
@@ -91,8 +91,10 @@ structure ScanSt where
   coords : List Coord := []
   /-- finished instructions, reversed -/
   done : List Instr := []
-  /-- a bad arc flag was seen (the Go code then may return a half-rewritten buffer: outside the modelled domain) -/
-  bad : Bool := false
+  /-- the input from the command letter of the instruction being read (Go `b[start:]`) -/
+  start : List Char := []
+  /-- bad format met (bad arc flag, or `1.e5`): the rest of the input from `start` is kept verbatim -/
+  bail : Option (List Char) := none
 
 def isSep (c : Char) : Bool := c == ' ' || c == ',' || c == '\n' || c == '\r' || c == '\t'
 
@@ -112,26 +114,39 @@ def scanGo : Nat → ScanSt → List Char → ScanSt
         | some kr => if st.cmd.isNone || st.cmd != some kr || kr.1 == .M then some kr else none
         | none => none
       match newCmd with
-      | some kr => scanGo f { st with cmd := some kr, coords := [], done := flush st } r
+      | some kr => scanGo f { st with cmd := some kr, coords := [], done := flush st, start := c :: r } r
       | none =>
         let isA := match st.cmd with | some (.A, _) => true | _ => false
         if isA && (st.coords.length % 7 == 3 || st.coords.length % 7 == 4) then
           if c == '1' then scanGo f { st with coords := { lx := ['1'], v := 1 } :: st.coords } r
           else if c == '0' then scanGo f { st with coords := { lx := ['0'], v := 0 } :: st.coords } r
-          else scanGo f { st with cmd := none, bad := true } r
+          else { st with bail := some st.start }
         else
           let n := scanNumber (c :: r)
           if n > 0 then
             let lx := (c :: r).take n
             scanGo f { st with coords := { lx := lx, v := numVal lx } :: st.coords } ((c :: r).drop n)
+          else if c == '.' && st.cmd.isSome && (match r with | e :: _ => e == 'e' || e == 'E' | [] => false) then
+            { st with bail := some st.start }
           else scanGo f st r
 
-/-- the instructions of a path data string; `none` = `cmd == 0` at the end (bail-out) -/
-def scan (d : List Char) : Option (List Instr) :=
+/-- result of the scanner: the complete instructions, the verbatim tail after a bad format (else empty), and the
+    command that follows the last complete instruction (the one being read when the scan bailed out) -/
+structure ScanRes where
+  instrs : List Instr
+  tail : List Char := []
+  lastNext : Option Kind := none
+  deriving Repr, DecidableEq
+
+/-- `none` = no command at all (`cmd == 0` at the end: the input is returned) -/
+def scan (d : List Char) : Option ScanRes :=
   let st := scanGo (d.length + 1) {} d
-  match st.cmd with
-  | none => none
-  | some _ => some (flush st).reverse
+  match st.bail with
+  | some t => some { instrs := st.done.reverse, tail := t, lastNext := st.cmd.map (·.1) }
+  | none =>
+    match st.cmd with
+    | none => none
+    | some _ => some { instrs := (flush st).reverse }
 
 /-! ## printer -/
 
@@ -249,8 +264,6 @@ structure MSt where
   /-- (qx, qy); `none` = NaN -/
   q : Option Pt := none
   ps : PState := {}
-  /-- chosen groups, reversed -/
-  out : List OutGroup := []
   deriving Repr
 
 def isFlagIdx (k : Kind) (i : Nat) : Bool := k == .A && (i % 7 == 3 || i % 7 == 4)
@@ -311,44 +324,59 @@ def endPoint (x y rx ry : Rat) : Kind → List Coord → Pt
   | .A, [_, _, _, _, _, a, b] => (a.v + rx, b.v + ry)
   | _, _ => (x, y)
 
+/-- what the rewriting of one group knows about its successor (fixes K-C05-3/4): all `false` = plain rules -/
+structure Ctx where
+  /-- this is the last group of its instruction and an `S`/`s` instruction follows -/
+  nextS : Bool := false
+  /-- this is the last group of its instruction and a `T`/`t` instruction follows -/
+  nextT : Bool := false
+  /-- the last printed command and the next group/command are curves: a zero-length line must stay -/
+  keepZero : Bool := false
+  deriving Repr, DecidableEq
+
 /-- the C/S block: C → S when the first control point is the reflected one; a curve whose control points
-    lie on the end points becomes a line (an S only if it is the single group of its instruction);
-    returns the new `p.cx,p.cy` -/
-def stageC (p a pc : Pt) (rx ry : Rat) (single : Bool) : Kind → List Coord → Option Pt × Kind × List Coord
+    lie on the end points becomes a line (an S only if it is the single group of its instruction; not when
+    `keepS` and the second control point is not the end point); returns the new `p.cx,p.cy` -/
+def stageC (p a pc : Pt) (rx ry : Rat) (single keepS : Bool) : Kind → List Coord → Option Pt × Kind × List Coord
   | .C, [c1x, c1y, c2x, c2y, ex, ey] =>
     let cp1 : Pt := (c1x.v + rx, c1y.v + ry)
     let cp2 : Pt := (c2x.v + rx, c2y.v + ry)
+    let keep := keepS && cp2 != a
     if cp1 == pc then
-      if single && onEnds p a cp1 && onEnds p a cp2 then (none, .L, [ex, ey])
+      if !keep && single && onEnds p a cp1 && onEnds p a cp2 then (none, .L, [ex, ey])
       else (some cp2, .S, [c2x, c2y, ex, ey])
     else
-      if onEnds p a cp1 && onEnds p a cp2 then (none, .L, [ex, ey])
+      if !keep && onEnds p a cp1 && onEnds p a cp2 then (none, .L, [ex, ey])
       else (some cp2, .C, [c1x, c1y, c2x, c2y, ex, ey])
   | .S, [c2x, c2y, ex, ey] =>
     let cp2 : Pt := (c2x.v + rx, c2y.v + ry)
-    if single && onEnds p a pc && onEnds p a cp2 then (none, .L, [ex, ey])
+    let keep := keepS && cp2 != a
+    if !keep && single && onEnds p a pc && onEnds p a cp2 then (none, .L, [ex, ey])
     else (some cp2, .S, [c2x, c2y, ex, ey])
   | k, cs => (none, k, cs)
 
 /-- the Q/T block -/
-def stageQ (p a pq : Pt) (rx ry : Rat) (single : Bool) : Kind → List Coord → Option Pt × Kind × List Coord
+def stageQ (p a pq : Pt) (rx ry : Rat) (single keepT : Bool) : Kind → List Coord → Option Pt × Kind × List Coord
   | .Q, [cx, cy, ex, ey] =>
     let cp : Pt := (cx.v + rx, cy.v + ry)
+    let keep := keepT && cp != a
     if cp == pq then
-      if single && onEnds p a cp then (none, .L, [ex, ey])
+      if !keep && single && onEnds p a cp then (none, .L, [ex, ey])
       else (some cp, .T, [ex, ey])
     else
-      if onEnds p a cp then (none, .L, [ex, ey])
+      if !keep && onEnds p a cp then (none, .L, [ex, ey])
       else (some cp, .Q, [cx, cy, ex, ey])
   | .T, [ex, ey] =>
-    if single && onEnds p a pq then (none, .L, [ex, ey])
+    let keep := keepT && pq != a
+    if !keep && single && onEnds p a pq then (none, .L, [ex, ey])
     else (some pq, .T, [ex, ey])
   | k, cs => (none, k, cs)
 
-/-- the L block: zero-length line → nothing, vertical → V, horizontal → H; returns (kind, coords, skip) -/
-def stageL (p a : Pt) : Kind → List Coord → Kind × List Coord × Bool
+/-- the L block: zero-length line → nothing (or kept as `V` when `keepZero`), vertical → V, horizontal → H;
+    returns (kind, coords, skip) -/
+def stageL (p a : Pt) (keepZero : Bool) : Kind → List Coord → Kind × List Coord × Bool
   | .L, [ex, ey] =>
-    if a.1 == p.1 && a.2 == p.2 then (.L, [ex, ey], true)
+    if a.1 == p.1 && a.2 == p.2 && !keepZero then (.L, [ex, ey], true)
     else if a.1 == p.1 then (.V, [ey], false)
     else if a.2 == p.2 then (.H, [ex], false)
     else (.L, [ex, ey], false)
@@ -356,14 +384,14 @@ def stageL (p a : Pt) : Kind → List Coord → Kind × List Coord × Bool
 
 /-- `k` is the command of this group (L for the later pairs of a moveto), `single` = `i == 0 && i+di >= n`;
     `cs` has exactly `k.arity` coordinates (guaranteed by `copyInstr`) -/
-def rewrite (st : MSt) (k : Kind) (rel : Bool) (single : Bool) (cs : List Coord) : Rewritten :=
+def rewrite (st : MSt) (k : Kind) (rel : Bool) (single : Bool) (cs : List Coord) (ctx : Ctx := {}) : Rewritten :=
   let p : Pt := (st.x, st.y)
   let rx : Rat := if rel then st.x else 0
   let ry : Rat := if rel then st.y else 0
   let a := endPoint st.x st.y rx ry k cs
-  let c := stageC p a (reflPt st.x st.y st.c) rx ry single k cs
-  let q := stageQ p a (reflPt st.x st.y st.q) rx ry single c.2.1 c.2.2
-  let l := stageL p a q.2.1 q.2.2
+  let c := stageC p a (reflPt st.x st.y st.c) rx ry single ctx.nextS k cs
+  let q := stageQ p a (reflPt st.x st.y st.q) rx ry single ctx.nextT c.2.1 c.2.2
+  let l := stageL p a ctx.keepZero q.2.1 q.2.2
   { c := c.1, q := q.1, k := l.1, cs := l.2.1, skip := l.2.2, ax := a.1, ay := a.2 }
 
 /-- current and alternative candidate of a rewritten group -/
@@ -384,17 +412,31 @@ def isMoveFirst (k0 : Kind) (first : Bool) : Bool := first && k0 == .M
 
 /-- state after printing group `g` and moving to the rewritten end point -/
 def advance (st : MSt) (r : Rewritten) (g : OutGroup) (setStart : Bool) : MSt :=
-  { st with c := r.c, q := r.q, x := r.ax, y := r.ay, ps := (emitGroup st.ps g).1, out := g :: st.out,
+  { st with c := r.c, q := r.q, x := r.ax, y := r.ay, ps := (emitGroup st.ps g).1,
             x0 := if setStart then r.ax else st.x0, y0 := if setStart then r.ay else st.y0 }
 
-/-- one iteration of the loop in `copyInstruction`.
-    `k0` = the instruction's command, `first` = `i == 0`, `single` = `i == 0 && i + di >= n` -/
-def groupStep (P : NumPr) (st : MSt) (k0 : Kind) (rel : Bool) (first single : Bool) (cs : List Coord) : MSt :=
-  let r := rewrite st (groupKind k0 first) rel single cs
-  if r.skip then { st with c := r.c, q := r.q }
-  else
-    let cand := candidates P st (isMoveFirst k0 first) rel r
-    advance st r (choose st.ps cand.1 cand.2) (isMoveFirst k0 first)
+/-- the group printed for a rewritten group: the shorter of the current and the alternative candidate -/
+def chosen (P : NumPr) (st : MSt) (k0 : Kind) (rel first : Bool) (r : Rewritten) : OutGroup :=
+  choose st.ps (candidates P st (isMoveFirst k0 first) rel r).1 (candidates P st (isMoveFirst k0 first) rel r).2
+
+/-- one iteration of the loop in `copyInstruction`: new state and the printed group (none for a removed
+    zero-length line).  `k0` = the instruction's command, `first` = `i == 0`, `single` = `i == 0 && i + di >= n` -/
+def groupStep (P : NumPr) (st : MSt) (k0 : Kind) (rel : Bool) (first single : Bool) (cs : List Coord) (ctx : Ctx := {}) :
+    MSt × List OutGroup :=
+  let r := rewrite st (groupKind k0 first) rel single cs ctx
+  if r.skip then ({ st with c := r.c, q := r.q }, [])
+  else (advance st r (chosen P st k0 rel first r) (isMoveFirst k0 first), [chosen P st k0 rel first r])
+
+def isCurveKind (k : Kind) : Bool := k == .C || k == .S || k == .Q || k == .T
+
+/-- look-ahead of `copyInstruction` (`p.next`): `last` = this is the last group of the instruction,
+    `next` = kind of the following instruction; within an instruction the next group has the instruction's kind
+    (L after the first pair of a moveto).  `ps.cmd` is the last printed command. -/
+def ctxOf (ps : PState) (k0 : Kind) (last : Bool) (next : Option Kind) : Ctx :=
+  let next' : Option Kind := if last then next else some (groupKind k0 false)
+  let nextCurve := match next' with | some k => isCurveKind k | none => false
+  let prevCurve := match ps.cmd with | some (k, _) => isCurveKind k | none => false
+  { nextS := last && next == some .S, nextT := last && next == some .T, keepZero := nextCurve && prevCurve }
 
 /-- split into chunks of `di` (the caller has checked divisibility) -/
 def chunks (di : Nat) : Nat → List Coord → List (List Coord)
@@ -402,9 +444,13 @@ def chunks (di : Nat) : Nat → List Coord → List (List Coord)
   | _ + 1, [] => []
   | f + 1, l => l.take di :: chunks di f (l.drop di)
 
-def groupLoop (P : NumPr) (k0 : Kind) (rel : Bool) (single : Bool) : MSt → Bool → List (List Coord) → MSt
-  | st, _, [] => st
-  | st, first, g :: r => groupLoop P k0 rel single (groupStep P st k0 rel first (first && single) g) false r
+def groupLoop (P : NumPr) (k0 : Kind) (rel : Bool) (single : Bool) (next : Option Kind) :
+    MSt → Bool → List (List Coord) → MSt × List OutGroup
+  | st, _, [] => (st, [])
+  | st, first, g :: r =>
+    let a := groupStep P st k0 rel first (first && single) g (ctxOf st.ps k0 r.isEmpty next)
+    let b := groupLoop P k0 rel single next a.1 false r
+    (b.1, a.2 ++ b.2)
 
 /-- arity `di` of an instruction with `n` coordinates, `none` = the instruction is dropped -/
 def instrArity (k : Kind) (n : Nat) : Option Nat :=
@@ -418,21 +464,34 @@ def instrArity (k : Kind) (n : Nat) : Option Nat :=
 
 def zGroup : OutGroup := { k := .Z, rel := true, items := [] }
 
-def copyInstr (P : NumPr) (st : MSt) (ins : Instr) : MSt :=
+def copyInstr (P : NumPr) (st : MSt) (ins : Instr) (next : Option Kind := none) : MSt × List OutGroup :=
   let n := ins.cs.length
   if n == 0 then
     if ins.k == .Z then
-      { st with x := st.x0, y := st.y0, ps := (emitGroup st.ps zGroup).1, out := zGroup :: st.out }
-    else st
+      ({ st with x := st.x0, y := st.y0, c := none, q := none, ps := (emitGroup st.ps zGroup).1 }, [zGroup])
+    else (st, [])
   else
     match instrArity ins.k n with
-    | none => st
-    | some di => groupLoop P ins.k ins.rel (n == di) st true (chunks di n ins.cs)
+    | none => (st, [])
+    | some di => groupLoop P ins.k ins.rel (n == di) next st true (chunks di n ins.cs)
 
-def runInstrs (P : NumPr) (st : MSt) (is : List Instr) : MSt := is.foldl (copyInstr P) st
+/-- kind of the command that follows: the next instruction, or `final` after the last one -/
+def nextKind (r : List Instr) (final : Option Kind) : Option Kind :=
+  match r with
+  | j :: _ => some j.k
+  | [] => final
+
+/-- `final` = command following the last instruction (`none` at the end of the input) -/
+def runInstrs (P : NumPr) (final : Option Kind) : MSt → List Instr → MSt × List OutGroup
+  | st, [] => (st, [])
+  | st, i :: r =>
+    let a := copyInstr P st i (nextKind r final)
+    let b := runInstrs P final a.1 r
+    (b.1, a.2 ++ b.2)
 
 /-- the groups `ShortenPathData` prints for the instruction list -/
-def groupsOfInstrs (P : NumPr) (is : List Instr) : List OutGroup := (runInstrs P {} is).out.reverse
+def groupsOfInstrs (P : NumPr) (is : List Instr) (final : Option Kind := none) : List OutGroup :=
+  (runInstrs P final {} is).2
 
 def maxLen : Nat := 100000
 
@@ -441,13 +500,9 @@ def shortenWith (P : NumPr) (d : List Char) : List Char :=
   if maxLen < d.length then d else
   match scan d with
   | none => d
-  | some is => renderGroups (groupsOfInstrs P is)
+  | some r => renderGroups (groupsOfInstrs P r.instrs r.lastNext) ++ r.tail
 
 /-- `svg.Minify` path data (Precision 0 → newPrecision 15) -/
 def shorten (d : List Char) : List Char := shortenWith (goPr 0 15) d
-
-/-- the bad-flag bail-out may hand back a partially rewritten buffer: outside the modelled domain -/
-def inDomain (d : List Char) : Bool :=
-  d.length ≤ maxLen && !(scanGo (d.length + 1) {} d).bad
 
 end Verif.Model.SvgPath
